@@ -37,6 +37,8 @@ class C09(Harness):
         "pipeline-update-transformed",
         "pipeline-transform-methods",
         "multiplexer-is-selected-member",
+        "online-ensemble-weighted",
+        "online-ensemble-prequential",
         "multiplexer-unknown-rejected",
         "stacking-holdout",
         "stacking-meta-training",
@@ -64,6 +66,7 @@ class C09(Harness):
         for nt in (1, 2):
             out.append({"name": "pipeline-t%d" % nt, "kind": "pipeline", "NT": nt, "cost": 2})
         out.append({"name": "multiplexer", "kind": "multiplexer", "cost": 1})
+        out.append({"name": "online-ensemble", "kind": "online", "cost": 1})
         out.append({"name": "stacking", "kind": "stacking", "cost": 2})
         out.append({"name": "nested-ensemble-in-pipeline", "kind": "nested1", "cost": 2})
         out.append({"name": "nested-pipeline-in-ensemble", "kind": "nested2", "cost": 2})
@@ -88,6 +91,11 @@ class C09(Harness):
             inp["skip"] = [bool(ctx.fresh_bool("skip%d" % i)) for i in range(cell["NT"])]
         if cell["kind"] == "multiplexer":
             inp["sel"] = int(self._choice(ctx, "sel", 0, 3))
+            inp["alpha"] = ctx.fresh_real("alpha")  # level of a requested prediction interval
+            ctx.assume((inp["alpha"] > 0) & (inp["alpha"] < 1))
+        if cell["kind"] == "online":
+            inp["w0"] = fresh_reals(ctx, "w0_", 2)  # the weighting algorithm's weights before / after it has seen the new window
+            inp["w1"] = fresh_reals(ctx, "w1_", 2)
         if cell["kind"] == "stacking":
             ctx.assume(hs[-1] <= nn - 1)
             inp["fh"] = [int(h) for h in hs]
@@ -124,6 +132,22 @@ class C09(Harness):
             MUX = W.load("sktime.forecasting.compose._multiplexer").MultiplexForecaster
             names = ["a", "b", "ab", "zzz"]  # one member's name is contained in a later member's name
             f = MUX([("a", Member(p=1)), ("b", Member(p=2)), ("ab", Member(p=3))], selected_forecaster=names[inp["sel"]])
+        elif kind == "online":
+            OE = W.load("sktime.forecasting.online_learning._online_ensemble").OnlineEnsembleForecaster
+            alg_log = []
+
+            class Alg:
+                """stands for a weighting algorithm (NNLS, hedge, ...): exposes .weights, learns in .update(predictions, truth)"""
+
+                def __init__(self):
+                    self.weights = np.array(list(inp["w0"]))
+
+                def update(self, predictions, truth):
+                    alg_log.append({"preds": [L(r) for r in L(predictions)], "y": L(truth)})
+                    self.weights = np.array(list(inp["w1"]))
+
+            f = OE([("a", Member(p=1)), ("b", Member(p=2))], ensemble_algorithm=Alg())
+            out["alg_log"] = alg_log
         elif kind == "stacking":
             STK = W.load("sktime.forecasting.compose._stack").StackingForecaster
             Reg = make_regressor(W, log)
@@ -158,6 +182,9 @@ class C09(Harness):
             out["tr"] = L(zt.values)
             out["itr"] = L(zi.values)
         if kind == "multiplexer":
+            del log[:]
+            pi = f.predict(return_pred_int=True, alpha=inp["alpha"])
+            out["interval"] = {"asked": [e["alpha"] for e in log if e["op"] == "predict_int"], "lower": L(pi[1]["lower"].values), "upper": L(pi[1]["upper"].values), "index": L(pi[1].index)}
             # the same object, re-used: another member is selected (and a member's parameter changed), then fit again
             del log[:]
             sel2 = (inp["sel"] + 1 + (nb % 2)) % 3
@@ -293,12 +320,44 @@ class C09(Harness):
                 if check_index(out["pred2"], c2):
                     for v, h in zip(out["pred2"][1], fh):
                         P.eq("multiplexer-is-selected-member", v, F(p, c2, c2 + h))
+            # prediction intervals are the selected member's, at the requested level
+            iv = out["interval"]
+            cN = c2 if nb else c1
+            P.check("multiplexer-is-selected-member", len(iv["asked"]) == 1, {"what": "interval request forwarded once"})
+            for a_ in iv["asked"][:1]:
+                P.eq("multiplexer-is-selected-member", a_, inp["alpha"], {"what": "interval level forwarded"})
+            for lo, up, lab, h in zip(iv["lower"], iv["upper"], iv["index"], fh):
+                P.eq("multiplexer-is-selected-member", lab, cN + h)
+                P.eq("multiplexer-is-selected-member", lo, W.uf("pi_lower", [p, cN, cN + h, inp["alpha"]], "iiir>r"), {"what": "interval of the member at the requested level"})
+                P.eq("multiplexer-is-selected-member", up, W.uf("pi_upper", [p, cN, cN + h, inp["alpha"]], "iiir>r"), {"what": "interval of the member at the requested level"})
             rs = out["resel"]
             p2 = 7 + rs["sel2"]
             P.check("multiplexer-is-selected-member", rs["fits"] == [p2], {"what": "refit after re-selection", "fits": rs["fits"], "want": p2})
             if check_index(rs["pred"], c1):
                 for v, h in zip(rs["pred"][1], fh):
                     P.eq("multiplexer-is-selected-member", v, F(p2, c1, c1 + h), {"what": "refit after re-selection"})
+        elif kind == "online":
+            w0, w1 = inp["w0"], inp["w1"]
+            for p in (1, 2):
+                fits_full(out["fitlog"], p, y)
+            if check_index(out["pred1"], c1):
+                for v, h in zip(out["pred1"][1], fh):
+                    P.eq("online-ensemble-weighted", v, w0[0] * F(1, c1, c1 + h) + w0[1] * F(2, c1, c1 + h))
+            al = out["alg_log"]
+            P.check("online-ensemble-prequential", len(al) == (1 if nb else 0), {"algorithm_updates": len(al)})
+            if nb and len(al) == 1:
+                # the algorithm is shown the members' forecasts of the new window made *before* they saw it, and the truth
+                P.check("online-ensemble-prequential", len(al[0]["preds"]) == 2 and all(len(r) == nb for r in al[0]["preds"]) and len(al[0]["y"]) == nb)
+                for pi_, row in enumerate(al[0]["preds"]):
+                    for i, v in enumerate(row[:nb]):
+                        P.eq("online-ensemble-prequential", v, F(pi_ + 1, c1, c1 + 1 + i), {"member": pi_ + 1, "step": i + 1})
+                for v, t in zip(al[0]["y"], u):
+                    P.eq("online-ensemble-prequential", v, t)
+                for p in (1, 2):
+                    updated(out["updlog"], p, u)
+                if check_index(out["pred2"], c2):
+                    for v, h in zip(out["pred2"][1], fh):
+                        P.eq("online-ensemble-weighted", v, w1[0] * F(1, c2, c2 + h) + w1[1] * F(2, c2, c2 + h))
         elif kind == "stacking":
             hK = fh[-1]
             log = out["fitlog"]
